@@ -88,7 +88,7 @@ var props = map[string]*propCfg{
 			"a member containing an unknown at any depth is never equal to anything, itself included: every Add of it is kept, no Remove or Has matches it",
 			"iteration order is compared only between wholly-known capsule-free sets with the same canonical members; which representative of an equivalence class a set keeps is not constrained"},
 		stubs: []string{"caller of the set API (seeded history)", "capsule equality/hash operations"}},
-	"C10": {quickRuns: 120000, quickBudget: 40 * time.Second, thorBudget: 9 * time.Minute, thorRuns: 1 << 40, level: "exploration",
+	"C10": {quickRuns: 1 << 40, quickBudget: 30 * time.Second, thorBudget: 9 * time.Minute, thorRuns: 1 << 40, level: "exploration",
 		rule: "one evaluation = one simulated run: one generated function specification (0..3 positional parameters and an optional variadic one, each with one of 13 type constraints incl. nested placeholders and every combination of the four allow flags; a type-check callback that is static, derived from the arguments, dynamic, fails or panics; an implementation callback that returns a conforming, marked, unknown, null or non-conforming value, fails or panics; optional result refinement) exercised by 4..15 calls through Call, Proxy, Unpredictable, WithNewDescriptions, ReturnType and ReturnTypeForValues with argument lists of every length around the arity mixing 8 argument kinds (conforming, deeply marked, non-conforming, null, null of unknown type, unknown incl. refined, DynamicVal, known with unknown/null members). Spies record the callback history; a protocol model derives the set of acceptable outcomes from the specification and the argument descriptions only. Every run is non-trivial (callbacks are the injected party); distinct = distinct (parameter count, variadic, callback behaviours, refinement, multiset of fired fault kinds).",
 		assumptions: []string{"when a call has both a disallowed dynamically-typed argument and another offending argument, the argument error and the unknown-of-unknown-type result are both acceptable (type checking stops at the first dynamically-typed argument)",
 			"'unknown' in the contract is unknown at the top level of an argument; nested unknowns reach the implementation by design",
@@ -116,7 +116,7 @@ var props = map[string]*propCfg{
 			"a collection may be built from placeholder-typed members next to typed ones; the placeholder is allowed exactly for unknown or null members and wholly-placeholder collections, as the constructors document",
 			"conformance of conversion results to their target is property C08 (not decided by this work): the monitor counts it in a probe and never reports it"},
 		stubs: []string{"caller (seeded operation and constructor sequences)", "capsule operations"}},
-	"C05": {quickRuns: 160000, quickBudget: 40 * time.Second, thorBudget: 9 * time.Minute, thorRuns: 1 << 40, level: "exploration",
+	"C05": {quickRuns: 1 << 40, quickBudget: 30 * time.Second, thorBudget: 9 * time.Minute, thorRuns: 1 << 40, level: "exploration",
 		rule: "one evaluation = one simulated run: either a seeded history of 1..12 refinement-builder calls with interleaved NewValue snapshots (builder reused after a snapshot, or refining restarted from a snapshot; rejected calls are the injected contradictions) checked call by call against an interval/nullness/prefix/length model with 8 membership candidates, or one generated string cut at every rune boundary with 5 continuations each. A run is non-trivial when at least one builder call was accepted or more than one cut was examined; distinct = distinct (start type and kind | string, multiset of fired fault kinds) among non-trivial runs.",
 		assumptions: []string{"numbers are compared by their shortest decimal rendering (integers exactly), as go-cty documents for Equals since 1.9.0",
 			"infinite candidates are outside the oracle (an unbounded side is reported as open towards infinity)",
